@@ -172,6 +172,7 @@ def observe(env):
             "grad_dtype": None if g is None else str(g.dtype),
             "grad_is_ndarray": g is None or type(g) is np.ndarray,
             "const": bool(t.constant),
+            "writeable": bool(t.data.flags.writeable),
             "creator_none": t.creator is None,
             "hasops": len(t._ops) > 0,
             "has_base": t._base is not None,
@@ -180,6 +181,48 @@ def observe(env):
             "dtype": str(t.dtype),
         }
     return out
+
+
+def run_failing(env, s):
+    """statements that must raise (C13); nothing may be left behind"""
+    t = env.t[s["t"]]
+    kind = s["kind"]
+    bad = np.ones(7)
+    if kind == "op_shape":
+        try:
+            np.broadcast_shapes(t.shape, (7, 11, 13))
+        except ValueError:
+            mg.add(t, np.ones((7, 11, 13)))
+        else:
+            mg.sum(t, axis=9)     # everything broadcasts against a size-1 tensor: use a bad axis instead
+    elif kind == "op_axis":
+        mg.sum(t, axis=9)
+    elif kind == "op_matmul":
+        mg.matmul(t, np.ones((11, 13)))
+    elif kind == "op_type":
+        mg.add(t, "abc")
+    elif kind == "view_index":
+        t[(17,) * max(t.ndim, 1)]
+    elif kind == "view_reshape":
+        t.reshape(t.size + 1)
+    elif kind == "view_transpose":
+        mg.transpose(t, (5, 6, 7, 8))
+    elif kind == "inplace_index":
+        t[(17,) * max(t.ndim, 1)] = 1.0
+    elif kind == "inplace_shape":
+        t[...] = np.ones((7, 5, 3))
+    elif kind == "inplace_aug":
+        t += np.ones((7, 5, 3))
+    elif kind == "inplace_out":
+        mg.add(np.ones((7, 5, 3)), np.ones((7, 5, 3)), out=t)
+    elif kind == "inplace_type":
+        t[...] = "abc"
+    elif kind == "inplace_setshape":
+        t.shape = (t.size + 1,)
+    elif kind == "inplace_value_error_in_value":
+        t[...] = mg.reshape(t, (t.size + 1,))
+    else:
+        raise RuntimeError("unknown failing kind " + kind)
 
 
 def families(env):
@@ -245,6 +288,8 @@ def run_case(case):
                 env.t[s["t"]][py_index(s["index"])] = env.operand(s["value"])
             elif k == "setshape":
                 env.t[s["t"]].shape = tuple(s["shape"])
+            elif k == "fail":
+                run_failing(env, s)
             elif k == "aug":
                 x = env.t[s["t"]]
                 v = env.operand(s["value"])
